@@ -138,7 +138,7 @@ def handleFine (j : Json) : Except String Json := do
   let script ← getList (parseCmd cs) (← field j "script")
   let fails ← getList getBool (← field j "fails")
   let sched ← getList getNat (← field j "schedule")
-  let fc : FCfg := { cfg := { wait := wait, fixed := fixed }, fails := fails, dieFixed := dieFixed }
+  let fc : FCfg := { cfg := { wait := wait, fixed := fixed, fails := fails }, dieFixed := dieFixed }
   let (fs, steps, bad) := replayF fc (initF script) sched []
   let s := fs.base
   let outcome :=
@@ -173,7 +173,10 @@ def handle (entry : String) (j : Json) : Except String Json := do
     if cs = 0 then throw "cs must be positive"
     let script ← getList (parseCmd cs) (← field j "script")
     let sched ← getList getNat (← field j "schedule")
-    let cfg : Cfg := { wait := wait, fixed := fixed }
+    let fails ← match optField j "fails" with
+      | some f => getList getBool f
+      | none => pure []
+    let cfg : Cfg := { wait := wait, fixed := fixed, fails := fails }
     let (s, steps, bad) := replay cfg (init script) sched []
     let outcome :=
       match bad with
